@@ -77,7 +77,7 @@ def run(ctx):
     ctx.assumptions += ["SHA-256d / HASH160 are uninterpreted; obligations recomputed with python hashlib"]
     ctx.tlc("MC_Address.tla", "MC_Address.cfg")
     out = os.path.join(ctx.tmp, "c15.ndjson")
-    ctx.run_vh(["addr", "-out", out, "-n", ctx.pick(120, 3000), "-typos", ctx.pick(6, 300)])
+    ctx.run_vh(["addr", "-out", out, "-n", ctx.pick(120, 10000), "-typos", ctx.pick(6, 300)])
     events = vf.read_ndjson(out)
     os.unlink(out)
     judge(ctx, events)
